@@ -51,7 +51,7 @@ IllTyped(t) == KindOf(t) = "ill"
 JVal(j) == IF j.kind = "float" THEN VF([cls |-> j.cls, neg |-> j.neg, m |-> NatOfDec(j.m), e |-> j.e])
            ELSE VI(j.kind, IntOfDec(j.dec))
 Same(v, j) == /\ v.kind = j.kind
-              /\ IF v.kind = "float" THEN j.cls = "fin" /\ FCmp(v.f, JVal(j).f) = 0 ELSE ZCmp(v.z, IntOfDec(j.dec)) = 0
+              /\ IF v.kind = "float" THEN j.cls = "fin" /\ FCmp(v.f, JVal(j).f) = 0 /\ (v.f.m = <<>> => v.f.neg = JVal(j).f.neg) ELSE ZCmp(v.z, IntOfDec(j.dec)) = 0
 Show(v) == IF v.kind = "float" THEN [kind |-> "float", neg |-> v.f.neg, m |-> DecOfNat(v.f.m), e |-> v.f.e]
            ELSE [kind |-> v.kind, dec |-> DecOfInt(v.z)]
 
